@@ -7,6 +7,7 @@ import (
 	"path/filepath"
 	"strings"
 	"sync"
+	"sync/atomic"
 	"syscall"
 	"time"
 
@@ -188,15 +189,19 @@ func c18WatchChild(scPath string) int {
 		slow := pause.Subscribe()
 		release := make(chan struct{})
 		slowDone := make(chan struct{})
+		var slowResumed atomic.Bool
 		go func() {
 			defer close(slowDone)
 			first := true
 			for range slow.PauseCh {
 				if first {
 					<-release // the fetch ends only now
-					first = false
 				}
 				slow.ResumeCh <- struct{}{}
+				if first {
+					first = false
+					slowResumed.Store(true)
+				}
 			}
 		}()
 		config.Get().MinSpaceRequired = high
@@ -207,6 +212,11 @@ func c18WatchChild(scPath string) int {
 			config.Get().MinSpaceRequired = high
 			time.Sleep(500 * time.Millisecond) // low again for > 10 ticks while that resume is pending
 			close(release)
+			// the pending resume completes first (the slow worker is released by it) ...
+			if !waitFor(func() bool { return slowResumed.Load() }) {
+				rep.inconclusive("slow-worker-never-resumed")
+			}
+			time.Sleep(120 * time.Millisecond) // ... and then the watchdog has to notice that the disk is still low
 			if !waitFor(func() bool { return pause.IsPaused() }) {
 				rep.violation("watcher/not-paused-below-threshold/low-again-while-resume-pending", fmt.Sprintf("free space is below --min-space-required=%.1f GiB (it dropped again while the watchdog's resume was waiting for a slow worker); 100 watcher ticks after that worker caught up the pipeline is still running", high), nil)
 				watchers.StopDiskWatcher()
